@@ -176,8 +176,8 @@ theorem SimGS.error_after {α β : Type} {G : GCtx} {A : Act} {loops lscopes d i
       obtain ⟨h1, mem2, h2, h3, h4⟩ := h
       exact ⟨hfr2 h1, mem2, hrun.trans h2, hml.trans h3, h4⟩
   case ret v =>
-    obtain ⟨hrt, h1, mem2, h2, h3⟩ := h
-    exact ⟨hrt, hfr2 h1, mem2, hrun.trans h2, hml.trans h3⟩
+    obtain ⟨hrt, h1, mem2, o2, ho2, h2, h3⟩ := h
+    exact ⟨hrt, hfr2 h1, mem2, o2, ho2, hrun.trans h2, hml.trans h3⟩
   case fatal kd m sp => exact fun hk => hrun.fatal (h hk)
   case unsupported => trivial
   case timeout => trivial
@@ -246,8 +246,8 @@ theorem SimGS.popLevel {α : Type} {G : GCtx} {A : Act} {loops lscopes d ip n st
         obtain ⟨hfr, mem1, hrun1, hml1, hsr⟩ := h
         exact ⟨frame_pop st st1 hfr, mem1, hrun1, hml1, by simpa [List.drop_tail] using hsr⟩
     case ret v =>
-      obtain ⟨hrt, hfr, mem1, hrun1, hml1⟩ := h
-      exact ⟨hrt, frame_pop st st1 hfr, mem1, hrun1, hml1⟩
+      obtain ⟨hrt, hfr, mem1, o1, ho1, hrun1, hml1⟩ := h
+      exact ⟨hrt, frame_pop st st1 hfr, mem1, o1, ho1, hrun1, hml1⟩
     case fatal kd m sp => exact h
     case unsupported => trivial
     case timeout => trivial
@@ -373,8 +373,8 @@ theorem pgbs_step (G : GCtx) (n : Nat) (hPSs : PGSs G n) : PGBS G (n + 1) := by
           obtain ⟨hfr, mem1, hrun1, hml1, hsr⟩ := h1
           exact ⟨hfrB hfr, mem1, hrun1, hml1, by simpa [List.drop_tail] using hsr⟩
       case ret v =>
-        obtain ⟨hrt, hfr, mem1, hrun1, hml1⟩ := h1
-        exact ⟨hrt, hfrB hfr, mem1, hrun1, hml1⟩
+        obtain ⟨hrt, hfr, mem1, o1, ho1, hrun1, hml1⟩ := h1
+        exact ⟨hrt, hfrB hfr, mem1, o1, ho1, hrun1, hml1⟩
       case fatal kd m sp => exact h1
       case unsupported => trivial
       case timeout => trivial
